@@ -15,4 +15,12 @@ Emit == LET R == CaseRecs(dt) IN
 (* C02: the value set of every datatype with the JSON value each member must be exported as *)
 EmitVS == /\ Assert(RoundTripLaw(dt), <<"the round trip law fails in the model for", dt>>)
           /\ PrintT(<<"VS", ToJson([dt |-> dt, vals |-> SetToSeq({[v |-> v, j |-> Export(dt, v)] : v \in VS(dt)})])>>)
+
+(* C03: for the type dt = a, the allowed verdicts of a.compatible(b) for every b of the catalogue *)
+EmitPairs == LET all == TypeSeq(Tier) IN
+    PrintT(<<"PAIRS", ToJson([a |-> dt, ai |-> CHOOSE i \in 1 .. Len(all) : all[i] = dt,
+                              pairs |-> [i \in 1 .. Len(all) |-> [allowed |-> AllowedPass(dt, all[i]), b |-> all[i]]]])>>)
+(* C03: the decorated types whose description / rebuild / copy is examined, with their probe candidates *)
+EmitEq == /\ Assert(DescribeLaw(dt), <<"Rebuild(Describe(d)) # d in the model for", dt>>)
+          /\ PrintT(<<"EQ", ToJson([dt |-> dt, probes |-> SetToSeq({c \in Cands(dt) : ~HasInternal(c)})])>>)
 =============================================================================
